@@ -9,8 +9,8 @@ CLAIMS = {
          "Decides that whatever is attached to a node travels with it (rendering reads only the node's own storage; Clone and decorate carry it); which node a comment is attached to is decided by positional heuristics in link() and is NOT decided.", "4 C02"),
  "C03": ("field-completeness and sibling agreement over go/types struct facts + typed AST; line-discovery rules of the fragment pass: text extents never taken from len(text) or ast End() of comments/literals (the scanner strips carriage returns), emptiness of a line never decided by a fixed byte distance; line-state machine of the restorer with content-end tracking; comment-group rule (comments without an empty line between them share a group)",
          "Decides that no token/child/value field of any go/ast node type is dropped in either direction and that no converter assertion can fail; does not decide text equality after go/printer. Two known findings (empty lines other than a single \\n byte — CRLF files, blanks — are not recognised; the working repair contradicts an existing test; a multi-line comment glued to the package clause is reformatted).", "4 C03"),
- "C04": ("render-site analysis of the generated restorer against go/types Decs structs, fragger order and listing/accessor",
-         "Each decoration point rendered exactly once, unconditionally, after its namesake; listing/accessor clauses decided; placement is relative to synthetic positions, not through go/printer.", "4 C04"),
+ "C04": ("render-site analysis of the generated restorer against go/types Decs structs, fragger order and listing/accessor; path-condition rule on the decorator's attachment searches (a fragment is collected only while unattached)",
+         "Each decoration point rendered exactly once, unconditionally, after its namesake; no attachment search stores a comment or line break that an earlier search stored (once-only on the decorate side); listing/accessor clauses decided; placement is relative to synthetic positions, not through go/printer.", "4 C04"),
  "C05": ("abstract interpretation of the restorer's line-break state machine: applySpace over its complete 24-class input partition, applyDecorations against a reference machine by product fixpoint over all decoration lists (5 decoration classes x 16 environments), plus the symbolic effect of every line-break block over the entry cursor (recorded line start, exit cursor)",
          "Decides the restorer's half of the non-additive spacing rule (number of line breaks handed to go/printer per SpaceType and fresh-line state); the visible max(After,Before) outcome is produced by go/printer and is not decided.", "4 C05"),
  "C06": ("per-field completeness + alias-freedom analysis of Clone against restore's reads and go/types struct facts",
